@@ -340,6 +340,8 @@ pub struct H2Conn {
 
 pub async fn h2_connect(addr: std::net::SocketAddr) -> Result<H2Conn, String> {
 	let io = tokio::net::TcpStream::connect(addr).await.map_err(|e| format!("connect: {e}"))?;
+	// HEADERS and DATA go out as separate writes: without this every request waits for a delayed ACK
+	let _ = io.set_nodelay(true);
 	let (sender, conn) = hyper::client::conn::http2::handshake(hyper_util::rt::TokioExecutor::new(), hyper_util::rt::TokioIo::new(io)).await.map_err(|e| format!("h2 handshake: {e}"))?;
 	let driver = tokio::spawn(async move {
 		let _ = conn.await;
